@@ -7,6 +7,8 @@ are the extern-"C" functions of spec/*.hpp.
 """
 from vfx.core import Unit
 from vfx import native as _native
+from vfx import core
+import os
 
 FX = 'N9fixedmath7fixed_tE'   # mangled fixedmath::fixed_t
 
@@ -738,16 +740,24 @@ E('C20', c20_scan)
 # ----------------------------------------------------------------------------- C19
 prop('C19', 'other',
      'Proved for all inputs: sin_angle_aprox(d) and cos_angle_aprox(d) return the table entry of d mod 360 (normalised '
-     'into [0,360]) for every int32 d with the table access in bounds (CBMC); sqrt_aprox is 0 at 0, NaN below 0 and '
-     'finite non-negative above, with its table index in bounds and all shifts valid (CBMC). Decided by native '
-     'enumeration (stand-in, the tabulated functions are transcendental): every one of the 361+361+256+256 table '
-     'entries against its definition (exhaustive in every tier) and sortedness of both tangent halves; '
-     'sin/cos_angle_aprox within 2 ulp (all 2^32 angles in the thorough tier); sqrt_aprox 2% (all raw x in [1,2^37) in '
-     'the thorough tier); atan_index_aprox within 1.25 (bounded: exhaustive for |raw| <= 2^21, thresholds, windows, '
-     'random). atan_index_aprox is under contract for UB-freedom, bounds and result range only (std::lower_bound enters '
-     'by an assumed contract); its accuracy is stand-in only.',
-     technique='CBMC contracts (index/bounds/NaN clauses); exhaustive native enumeration of table entries; native stand-ins for accuracy',
-     assumptions=['glibc long double libm as the oracle for table entries and accuracy stand-ins'])
+     'into [0,360]) for every int32 d with the table access in bounds (CBMC), so that their 2-ulp clause reduces to the '
+     '361+361 table entries; sqrt_aprox is 0 at 0, NaN below 0 and finite non-negative above, with its table index in '
+     'bounds and all shifts valid (CBMC), and its 2% clause -- the integer inequality 2401*X <= 2500*r^2 <= 2601*X with '
+     'X = x.v*2^16 -- is PROVED for every raw x in [1, 2^37) (37 units, one per bit length); atan_index_aprox: result '
+     'range/UB for every x, and its 1.25 clause for every 0 <= x < 2^31 by the interval certificate (513 threshold pairs '
+     'generated per run from glibc tanl/atanl; the unit proves LO[j(x)] <= x <= HI[j(x)]) with std::lower_bound under the '
+     'standard\'s contract, whose sortedness precondition is proved over the real table at the call site. For x < 0 the '
+     'library applies std::lower_bound to a range that is not partitioned (observation in DESIGN 14), the standard\'s '
+     'contract is silent and the result is whatever libstdc++\'s bisection returns: there the same clause is checked for '
+     'every |x| < 2^31 under a C model of that bisection (loop unwound with unwinding assertion; labelled BOUNDED, not '
+     'counted as proved). Decided by native enumeration (the tabulated functions are transcendental): every one of the '
+     '361+361+256+256 table entries against its definition (exhaustive in every tier) and sortedness of both tangent '
+     'halves; kept as cross-checks: sin/cos_angle_aprox within 2 ulp (all 2^32 angles in the thorough tier), sqrt_aprox '
+     '2% (all raw x in [1,2^37) in the thorough tier), atan_index_aprox within 1.25 (exhaustive for |raw| <= 2^21, '
+     'thresholds, windows, random).',
+     technique='CBMC contracts (index/bounds/NaN clauses, sqrt_aprox accuracy, atan_index_aprox accuracy by interval certificate); exhaustive native enumeration of table entries; native scans as cross-checks',
+     assumptions=['glibc long double libm as the oracle for the table entries, for the 513 certificate thresholds of atan_index_aprox and for the cross-check scans',
+                  'std::lower_bound: the standard\'s contract (partition point on a partitioned range) assumed for the external function; on the non-partitioned negative half a C model of libstdc++\'s bisection (bounded unit)'])
 LOWER_BOUND_PRELUDE_C19 = """
 long *vf_lower_bound_long(long *first, long *last, long val)
 __CPROVER_requires(__CPROVER_same_object(first, last) && first <= last)
@@ -759,8 +769,93 @@ COS_APROX = '_ZN9fixedmath15cos_angle_aproxEi'
 SQRT_APROX = '_ZN9fixedmath10sqrt_aproxENS_7fixed_tE'
 U('C19', 'c19.sin_aprox', SIN_APROX, 'pre_anyi', 'post_sin_aprox', cxx='fixedmath::sin_angle_aprox($1)', backends=('sat', 'kissat'), timeout=600)
 U('C19', 'c19.cos_aprox', COS_APROX, 'pre_anyi', 'post_cos_aprox', cxx='fixedmath::cos_angle_aprox($1)', backends=('sat', 'kissat'), timeout=600)
-U('C19', 'c19.atan_index_aprox', '_ZN9fixedmath16atan_index_aproxENS_7fixed_tE', 'pre_valid1', 'post_atan_index', cxx='fixedmath::atan_index_aprox($1)', prelude=LOWER_BOUND_PRELUDE_C19, replace_raw=['vf_lower_bound_long'], backends=MULBE, timeout=1200)
+ATAN_INDEX_C19 = '_ZN9fixedmath16atan_index_aproxENS_7fixed_tE'
+U('C19', 'c19.atan_index_aprox', ATAN_INDEX_C19, 'pre_valid1', 'post_atan_index', cxx='fixedmath::atan_index_aprox($1)', prelude=LOWER_BOUND_PRELUDE_C19, replace_raw=['vf_lower_bound_long'], backends=MULBE, timeout=1200)
 U('C19', 'c19.sqrt_aprox', SQRT_APROX, 'pre_valid1', 'post_sqrt_aprox', cxx='fixedmath::sqrt_aprox($1)', backends=('sat', 'kissat'), timeout=600)
+
+# accuracy clause of atan_index_aprox.  The function takes 513 values only and atan is monotone, so "within 1.25 of atan(x)*128/pi" is,
+# per value j/2, an interval [LO[j], HI[j]] of raw arguments; the two threshold tables are a CERTIFICATE generated on every run by
+# native/c19_atan_cert.cc from glibc tanl/atanl (it does not touch the library) and the units prove LO[j(x)] <= x <= HI[j(x)] for EVERY x.
+import threading as _threading
+_ATAN_CERT = {'lock': _threading.Lock(), 'text': None}
+
+
+def _atan_cert():
+    import subprocess as _sp
+    with _ATAN_CERT['lock']:
+        if _ATAN_CERT['text'] is None:
+            os.makedirs(os.path.join(core.BUILD, 'native'), exist_ok=True)
+            exe = os.path.join(core.BUILD, 'native', 'c19_atan_cert.%d' % os.getpid())
+            src = os.path.join(core.VERIF, 'native', 'c19_atan_cert.cc')
+            try:
+                r = _sp.run(['g++', '-O1', '-o', exe, src], capture_output=True, text=True)
+                if r.returncode != 0:
+                    raise core.Undecided('c19_atan_cert does not build: ' + r.stderr[-300:])
+                r = _sp.run([exe], capture_output=True, text=True, timeout=60)
+                if r.returncode != 0 or 'static const long VF_ATAN_LO[513]' not in r.stdout or 'static const long VF_ATAN_HI[513]' not in r.stdout:
+                    raise core.Undecided('c19_atan_cert failed')
+                _ATAN_CERT['text'] = r.stdout
+            finally:
+                if os.path.exists(exe):
+                    os.unlink(exe)
+        return _ATAN_CERT['text']
+
+
+ATAN_ACC_POST = ['__CPROVER_return_value.v % 32768 == 0 && __CPROVER_return_value.v >= -256 * 32768 && __CPROVER_return_value.v <= 256 * 32768',
+                 'VF_ATAN_LO[(__CPROVER_return_value.v >> 15) + 256] <= $1.v && $1.v <= VF_ATAN_HI[(__CPROVER_return_value.v >> 15) + 256]']
+# (a) x >= 0, unbounded: std::lower_bound enters by the STANDARD's contract ([lower.bound]: for a range partitioned with respect to e < value
+#     the result is the partition point), assumed for the external function; its precondition -- the 128 table entries it is applied to
+#     are strictly increasing -- is an obligation at the call site, proved over the real table.
+def _lb_std_prelude():
+    srt = ' && '.join('first[%d] < first[%d]' % (i, i + 1) for i in range(127))
+    return _atan_cert() + """
+/* std::lower_bound, ASSUMED: the standard's contract on a sorted 128-element range */
+long *vf_lower_bound_long(long *first, long *last, long val)
+__CPROVER_requires(__CPROVER_same_object(first, last) && __CPROVER_POINTER_OFFSET(last) == __CPROVER_POINTER_OFFSET(first) + 128 * sizeof(long) && __CPROVER_r_ok(first, 128 * sizeof(long)))
+__CPROVER_requires(%s)
+__CPROVER_ensures(__CPROVER_same_object(__CPROVER_return_value, first) && __CPROVER_POINTER_OFFSET(__CPROVER_return_value) >= __CPROVER_POINTER_OFFSET(first) && __CPROVER_POINTER_OFFSET(__CPROVER_return_value) <= __CPROVER_POINTER_OFFSET(last) && __CPROVER_POINTER_OFFSET(__CPROVER_return_value) %% sizeof(long) == 0)
+__CPROVER_ensures(__CPROVER_return_value == first || __CPROVER_return_value[-1] < val)
+__CPROVER_ensures(__CPROVER_return_value == last || !(__CPROVER_return_value[0] < val))
+__CPROVER_assigns();
+""" % srt
+
+
+U('C19', 'c19.atan_index.acc.nonneg', ATAN_INDEX_C19, 'pre_valid1', None, cxx='fixedmath::atan_index_aprox($1)', prelude=_lb_std_prelude, replace_raw=['vf_lower_bound_long'],
+  requires_extra=['$1.v >= 0 && $1.v < (1l << 47)'], ensures_extra=ATAN_ACC_POST, backends=MULBE, timeout=1200, native_post='native_atan_index_ok',
+  note='accuracy clause for every 0 <= x < 2^31: certificate intervals + the standard contract of std::lower_bound (sortedness of the table half proved at the call site)')
+
+
+# (b) every x, BOUNDED: the negative branch applies std::lower_bound to tan_table__[128..256), which is NOT partitioned for most negative
+#     arguments (DESIGN section 14, observation), so the standard's contract says nothing there and the result is whatever libstdc++'s
+#     bisection computes.  A C rendering of libstdc++'s std::__lower_bound (bits/stl_algobase.h: len/half bisection) stands in for it and
+#     its loop is unwound 9 times with the unwinding assertion (a 128-element range needs at most 8 iterations).  Labelled bounded.
+def _lb_model_prelude():
+    return _atan_cert() + """
+/* MODEL of libstdc++ std::__lower_bound (bits/stl_algobase.h), a dependency outside the repository */
+long *vf_lower_bound_long(long *first, long *last, long val)
+{
+  long len = last - first;
+  while (len > 0)
+  {
+    long half = len >> 1;
+    long *middle = first + half;
+    if (*middle < val) { first = middle + 1; len = len - half - 1; }
+    else len = half;
+  }
+  return first;
+}
+"""
+
+
+U('C19', 'c19.atan_index.acc.model', ATAN_INDEX_C19, 'pre_valid1', None, cxx='fixedmath::atan_index_aprox($1)', prelude=_lb_model_prelude,
+  requires_extra=['$1.v > -(1l << 47) && $1.v < (1l << 47)'], ensures_extra=ATAN_ACC_POST, unwind=9, backends=MULBE, timeout=1200, native_post='native_atan_index_ok',
+  bounded='std::lower_bound replaced by a C model of libstdc++\'s bisection, loop unwound 9 times with unwinding assertion',
+  note='BOUNDED: accuracy clause for every |x| < 2^31 (both branches) under a model of libstdc++ lower_bound')
+# the 2% clause of sqrt_aprox is an integer inequality (spec/c19.hpp): proved for every x in [2^-16, 2^21), one unit per bit length of x.v
+for _L in range(1, 38):
+    U('C19', 'c19.sqrt_aprox.acc.len%02d' % _L, SQRT_APROX, 'pre_sqrt_aprox_acc', 'post_sqrt_aprox_acc', cxx='fixedmath::sqrt_aprox($1)',
+      requires_extra=['($1.v >> %d) == 1' % (_L - 1)], backends=('sat', 'kissat'), timeout=900,
+      note='2%% relative accuracy, 2^%d <= x.v < 2^%d' % (_L - 1, _L))
 
 
 def c19_scan(tier, seed):
